@@ -18,12 +18,8 @@ Open Scope Z_scope.
 (* generic tools (shared with the 3D file)                                                      *)
 (* ------------------------------------------------------------------------------------------ *)
 
-Lemma if_negb_true {A} (c : bool) (a b r : A) : c = true -> b = r -> (if negb c then a else b) = r.
-Proof. intros -> <-. reflexivity. Qed.
 Lemma if_negb_false {A} (c : bool) (a b r : A) : c = false -> a = r -> (if negb c then a else b) = r.
 Proof. intros -> <-. reflexivity. Qed.
-Lemma ok3_eq {A B C} (a a' : A) (b : B) (c c' : C) : a = a' -> c = c' -> Ok (a, b, c) = Ok (a', b, c').
-Proof. intros -> ->. reflexivity. Qed.
 
 (* a counting loop whose body ignores the counter is an iteration *)
 Lemma pyrange_0_length n : length (pyrange 0 n 1) = Z.to_nat n.
